@@ -17,6 +17,8 @@ struct Stats {
     views_by_kind: [u64; 3],
     opened_by_kind: [u64; 3],
     retargeted: u64,
+    retargeted_from_page_gt0: u64,
+    jumps_from_page_gt0: [u64; 4],
     views_rearward: u64,
     views_page_gt0: u64,
     max_page_seen: usize,
@@ -144,7 +146,16 @@ pub fn check(out: &mut Out, st: &Step) {
             }
         }
         (Some(a), Some(b)) if sel_target(a) != sel_target(b) => {
-            STATS.with(|s| s.borrow_mut().retargeted += 1);
+            STATS.with(|s| {
+                let mut s = s.borrow_mut();
+                s.retargeted += 1;
+                if a.page > 0 {
+                    s.retargeted_from_page_gt0 += 1;
+                    if let Some(j) = st.op.strip_prefix("jump ") {
+                        s.jumps_from_page_gt0[j.parse::<usize>().unwrap_or(0).min(3)] += 1;
+                    }
+                }
+            });
             if b.page != 0 {
                 fail(out, "new", &format!("the highlighted range / menu changed ({:?} -> {:?}) but the page stayed {}", sel_target(a), sel_target(b), b.page), st);
             }
@@ -385,6 +396,10 @@ pub fn finish(out: &mut Out) {
         out.stat("c07_opened_symbol_table", s.opened_by_kind[1]);
         out.stat("c07_opened_special_symbol", s.opened_by_kind[2]);
         out.stat("c07_range_or_menu_changes", s.retargeted);
+        out.stat("c07_range_or_menu_changes_from_page_gt0", s.retargeted_from_page_gt0);
+        for (i, name) in ["first", "last", "next", "prev"].iter().enumerate() {
+            out.stat(&format!("c07_jump_{}_moved_range_from_page_gt0", name), s.jumps_from_page_gt0[i]);
+        }
         out.stat("c07_views_rearward", s.views_rearward);
         out.stat("c07_views_page_gt0", s.views_page_gt0);
         out.stat("c07_views_multi_page", s.multi_page_views);
